@@ -13,3 +13,39 @@ class Engine(DbEngine):
     rule = 'histories of stores, replacements, deletions, removals and vanishes over events with repeated, >182-byte, empty and multi-string tags; after every op the entry counters must equal the number of retrievable events (id/ci/ac/akc) and the number of distinct (letter, padded value) pairs (tc/atc/ktc); own-field filter shapes of stored events (id; author; author+kind; each single-letter tag value alone / with author / with kind; time window) are queried and judged against the abstract store. non-trivial = history with >= 2 stores'
     trusted = DbEngine.db_trusted
     assumptions = []
+
+    # events that differ only in the SECOND half of their id (the store does not verify ids) and share their timestamp:
+    # every access path must return all of them (an ordering or a set that looks at a prefix of the id loses one)
+    def generate(self, rng, tier):
+        import random
+        from dbgen import HistGen, AUTHORS
+        out = super().generate(rng, tier)
+        for i in range(12 if tier == 'quick' else 250):
+            sub = random.Random(rng.getrandbits(64))
+            g = HistGen(sub, {'new': 2}, sub.choice([0, 2])).run()
+            a = sub.choice(AUTHORS)
+            kind = sub.choice([1, 7, 1059])
+            t = sub.choice([1000, 2000, 0])
+            val = sub.choice([b'twin', b'x'])
+            head = bytes(sub.getrandbits(8) for _ in range(sub.choice([16, 16, 24, 31])))
+            twins = []
+            for j in range(sub.choice([2, 2, 3])):
+                e = g.new_event(kind=kind, pk=a, created=t, tags=[[b't', val]])
+                e['content'] = b'twin %d' % j
+                e['id'] = head + bytes([j + 1]) * (32 - len(head))
+                g.note_event(e)
+                g.op_store(e)
+                twins.append(e)
+            base = {'ids': [], 'authors': [], 'kinds': [], 'tags': [], 'since': None, 'until': None, 'limit': None}
+            for sh in ({'authors': [a]}, {'authors': [a], 'kinds': [kind]}, {'tags': [[b't', val]]}, {'tags': [[b't', val]], 'authors': [a]},
+                       {'tags': [[b't', val]], 'kinds': [kind]}, {'since': t, 'until': t}, {'ids': [e['id'] for e in twins]}):
+                f = dict(base)
+                f.update(sh)
+                g.ops.append(('query', f, [], 1, 0, 0, g.now))
+            if sub.random() < 0.5:
+                g.ops.append(('vanish', a))
+                f = dict(base)
+                f.update({'authors': [a]})
+                g.ops.append(('query', f, [], 1, 0, 0, g.now))
+            out.append(('id-prefix-twins', g.render()))
+        return out
